@@ -3,12 +3,14 @@ package rules
 import (
 	"fmt"
 	"go/ast"
+	"go/constant"
 	"go/token"
 	"go/types"
 	"reflect"
 	"sort"
 	"strconv"
 	"strings"
+	"time"
 
 	"verif/checker/internal/load"
 )
@@ -380,6 +382,8 @@ func CheckC11(c *Ctx) {
 			c.violate("codec-agreement/append-or-write", "helper.AppendOrWriteToCsvFile", "choice", aw.Decl.Pos(), "the choice between appending (existing, non-empty file) and writing header+rows (missing or empty file) has changed")
 		}
 	}
+	// the layouts dates are written and read with carry every field they carry completely
+	c.timeLayouts()
 	// whole numbers and booleans: written in the base and with the function the reader parses
 	c.integerCodec(get, set)
 	// JSON delimiters
@@ -1014,4 +1018,94 @@ func (c *Ctx) integerCodec(get, set *load.FuncInfo) {
 	}
 	run.Count("strconv_calls", len(w)+len(r))
 	run.Floor("strconv_calls", 8)
+}
+
+// timeLayouts: a date is written with time.Format(layout) and read back with time.Parse(layout):
+// the round trip is lossless only if the layout carries each field it mentions completely. The
+// layouts of the codec - the default date-time format and every `format:"…"` struct tag of the
+// module - are constants; each is evaluated with the standard library's own Format on pairs of
+// instants: if the layout distinguishes two instants one hour apart (it carries the hour) it
+// must distinguish 07:14 from 19:14 (a 12-hour verb without AM/PM does not); if it distinguishes
+// two years it must distinguish 1923 from 2023 (a two-digit year does not); likewise minutes,
+// seconds, months and days by their neighbours. This is constant evaluation of a layout string,
+// not an execution of the library.
+func (c *Ctx) timeLayouts() {
+	run := c.Run
+	type layout struct {
+		text, where string
+		pos         token.Pos
+	}
+	var layouts []layout
+	if hp := c.P.Pkg("helper"); hp != nil {
+		for _, name := range hp.Types.Scope().Names() {
+			cst, ok := hp.Types.Scope().Lookup(name).(*types.Const)
+			if !ok || cst.Val().Kind() != constant.String {
+				continue
+			}
+			v := constant.StringVal(cst.Val())
+			if strings.Contains(name, "Format") && strings.Contains(v, "2006") {
+				layouts = append(layouts, layout{v, "helper." + name, cst.Pos()})
+			}
+		}
+	}
+	for _, pk := range c.P.Pkgs {
+		for _, f := range pk.Syntax {
+			if strings.HasSuffix(c.P.Fset.Position(f.Pos()).Filename, "_test.go") {
+				continue
+			}
+			ast.Inspect(f, func(n ast.Node) bool {
+				fld, ok := n.(*ast.Field)
+				if !ok || fld.Tag == nil {
+					return true
+				}
+				tv, err := strconv.Unquote(fld.Tag.Value)
+				if err != nil {
+					return true
+				}
+				if v, has := reflect.StructTag(tv).Lookup("format"); has {
+					name := "field"
+					if len(fld.Names) > 0 {
+						name = fld.Names[0].Name
+					}
+					layouts = append(layouts, layout{v, load.RelPkg(pk.PkgPath) + " tag of " + name, fld.Pos()})
+				}
+				return true
+			})
+		}
+	}
+	base := time.Date(2023, time.November, 28, 7, 14, 9, 0, time.UTC)
+	type probe struct {
+		what     string
+		near     time.Time // differs from base in the field, by one unit
+		far      time.Time // differs from base in the part of the field a lossy verb drops
+		farWhat  string
+		lossyFmt string
+	}
+	probes := []probe{
+		{"hour", base.Add(time.Hour), base.Add(12 * time.Hour), "07:14 and 19:14", "a 12-hour clock without AM/PM"},
+		{"year", base.AddDate(1, 0, 0), base.AddDate(-100, 0, 0), "1923 and 2023", "a two-digit year"},
+	}
+	for _, l := range layouts {
+		run.Count("time_layouts", 1)
+		why := ""
+		for _, p := range probes {
+			carries := base.Format(l.text) != p.near.Format(l.text)
+			if carries && base.Format(l.text) == p.far.Format(l.text) {
+				why = fmt.Sprintf("the layout %q carries the %s but writes %s alike (%s): the value read back is not the value written", l.text, p.what, p.farWhat, p.lossyFmt)
+			}
+		}
+		// what is written parses back with the same layout
+		if why == "" {
+			if t2, err := time.Parse(l.text, base.Format(l.text)); err != nil {
+				why = fmt.Sprintf("a date written with the layout %q does not parse back with it: %v", l.text, err)
+			} else if t2.Format(l.text) != base.Format(l.text) {
+				why = fmt.Sprintf("a date written with the layout %q reads back as a different date", l.text)
+			}
+		}
+		run.Oblige(why == "")
+		if why != "" {
+			c.violate("codec-agreement/time", l.where, "layout "+l.text, l.pos, why)
+		}
+	}
+	run.Floor("time_layouts", 2)
 }
